@@ -66,7 +66,7 @@ def main():
                        extra=dict(UseFlags=True, MaxCalls=2, MaxVeto=0, FaultMode=True), shard=(32, 1))
     expect("EndFix=FALSE (End-handler fault not rolled back)", v, ["Inv_C08"])
 
-    r = tlcrun.run_tlc("MCQueue", dict(spec="Spec", consts=dict(Callers="{1, 2}", MutsPer=1, NestCodes="{}",
+    r = tlcrun.run_tlc("MCQueue", dict(spec="Spec", consts=dict(Callers="{1, 2}", MutsPer=1, NestCodes="{}", PrepCodes="{}",
                        Recheck=False), invariants=["NoStranding", "NoneLost"]), workers=4, timeout=300)
     expect("Queue Recheck=FALSE (stranded mutation)", sorted(r["violated"]), ["NoStranding", "NoneLost"])
     for flag, inv in (("ClockAliased", "ClosedIff"), ("QueryFixed", "NeverPanics"), ("DisposeQuery", "ClosedIff")):
@@ -113,7 +113,7 @@ def main():
         k = [i for i, l in enumerate(lines) if '"point":"pq.casWon"' in l][0]
         fc = os.path.join(d, "c.ndjson")
         open(fc, "w").write("\n".join(lines[:k] + lines[k + 1:]) + "\n")
-        res = _res("TraceQueue", dict(Callers="{1, 2}", MutsPer=1, NestCodes="{}", Recheck=True), fc)
+        res = _res("TraceQueue", dict(Callers="{1, 2}", MutsPer=1, NestCodes="{}", PrepCodes="{}", Recheck=True), fc)
         got = sorted({f for _, f in res["drift"]} | {f for _, f in res["viol"]})
         expect("dropped pq.casWon hook event", [g.split(":")[0] for g in got], ["gate"])
     finally:
